@@ -327,6 +327,42 @@ def check_fast_gap(repo, rep, tier):
     rep.floor(rid, 500)
 
 
+def check_symbol_interleaving(repo, rep):
+    rid = "C02-R7"
+    rep.rule(rid, "several symbols: an order that a hook of symbol A creates for symbol B at minute m may only be matched against B's "
+                  "candles from m on, and must be matched against all of them. Necessary structural condition, decided on the loop "
+                  "nest of each simulator: inside the per-symbol loop the matcher receives exactly one minute of that symbol (so "
+                  "minutes are the outer iteration and symbols the inner one); a matcher that consumes a multi-minute slice per "
+                  "symbol replays one symbol's whole chunk before the next symbol's")
+    for sim, host, eff in (("_step_simulator", "_step_simulator", "_simulate_price_change_effect"),
+                           ("_skip_simulator", "_simulate_new_candles", "_simulate_price_change_effect_multiple_candles")):
+        fn = repo.func(BT, host)
+        sym_loops = [n for n in ast.walk(fn) if isinstance(n, ast.For) and SL.loop_id(n) == "sym"]
+        calls = [(lp, c) for lp in sym_loops for c in ast.walk(lp) if isinstance(c, ast.Call) and SL.last(SL.dotted(c.func) or "") == eff]
+        if len(calls) != 1:
+            raise AnalysisError(f"{host}: expected one call of {eff} inside the per-symbol loop, found {len(calls)}")
+        lp, call = calls[0]
+        arg = call.args[0]
+        # resolve the argument to the expression it was assigned from inside the loop body
+        src = arg
+        seen = 0
+        while isinstance(src, ast.Name) and seen < 4:
+            asg = [a for a in ast.walk(lp) if isinstance(a, ast.Assign) and len(a.targets) == 1 and isinstance(a.targets[0], ast.Name) and a.targets[0].id == src.id
+                   and not (isinstance(a.value, ast.Call) and SL.last(SL.dotted(a.value.func) or "") == "_get_fixed_jumped_candle")]
+            if not asg:
+                break
+            src = asg[0].value
+            seen += 1
+        one_minute = isinstance(src, ast.Subscript) and not isinstance(src.slice, ast.Slice)
+        if not one_minute:
+            rep.violation(rid, f"{sim}|symbol-major-chunk",
+                          f"{sim}: inside the per-symbol loop of {host} the matcher {eff} receives `{norm(src)}` - a multi-minute slice - so one symbol's "
+                          f"whole chunk is replayed (fills, hooks) before the next symbol's: an order created for another symbol by a hook at minute m is "
+                          f"matched against that symbol's earlier minutes of the chunk (executed before it was submitted) or misses its later ones")
+        rep.instance(rid, f"{sim}|{norm(src)[:60]}", {"simulator": sim, "matcher_input": norm(src), "one_minute_per_symbol": one_minute})
+    rep.floor(rid, 2)
+
+
 # ------------------------------------------------------------------ market orders
 def check_market_orders(repo, rep):
     rid = "C02-R6b"
@@ -496,6 +532,7 @@ def run(repo: Repo, rep, tier: str):
     rep.guarded(check_fast_chunk, repo, rep, tier)
     rep.guarded(check_fast_one_candle, repo, rep, tier)
     rep.guarded(check_fast_gap, repo, rep, tier)
+    rep.guarded(check_symbol_interleaving, repo, rep)
     rep.guarded(check_market_orders, repo, rep)
     rep.guarded(check_field_writers, repo, rep)
     rep.undecided_item("exact fill minute of an order inside a fast-mode chunk (see C12)")
@@ -512,7 +549,11 @@ CLAIM = {
             "ordering and is applied to (candle[k-1], candle[k]) on every step but the first, in both simulators. "
             "(3) Trace rules: matching happens exactly once per symbol and step, before any strategy runs; market orders are "
             "priced at the current price, queued, and flushed after the last strategy execution of each step and after every "
-            "_terminate(). (4) Nobody rewrites an order's price/qty/side/type. Not decided: exact fill minute inside fast-mode "
-            "chunks (C12), k>3 simultaneous orders.",
+            "_terminate(). (4) Nobody rewrites an order's price/qty/side/type. (5) Fast simulator: the chunk matcher is executed "
+            "abstractly on two-minute chunks with two orders, on one-candle chunks with two / three orders in both storage orders "
+            "and a reaction order, and - through _simulate_new_candles - on chunks with a gap inside: exactly the touched orders "
+            "fill, once, at their own price. (6) Several symbols: the matcher must receive one minute per symbol inside the "
+            "per-symbol loop (minute-major order); the fast simulator's symbol-major chunk replay is a recorded known finding. "
+            "Not decided: exact fill minute inside fast-mode chunks (C12), k>3 simultaneous orders.",
     "note": "Trusted: interpreter = CPython semantics on the subset; loops in trace rules unrolled 0/1 times; mode predicates fixed to backtest.",
 }
